@@ -98,7 +98,10 @@ def gen_cases(tier, seed):
                # the loop is NOT desper.default_loop (from_world explicit)
                'own_loop': rng.random() < 0.3,
                # worlds are instances of a World subclass that is falsy
-               'falsy_world': rng.random() < 0.3}
+               'falsy_world': rng.random() < 0.3,
+               # value-like handles: distinct handles compare (and hash)
+               # equal
+               'equal_handles': rng.random() < 0.25}
     for i in range(400 if tier == 'quick' else 16 * 2000):
         yield gen_chain(random.Random(f'C13/chain/{seed}/{tier}/{i}'))
     for i in range(3 if tier == 'quick' else 48):
@@ -453,7 +456,7 @@ def run_case(case):
             res.tags['current_handle_cleared_by_program'].add(True)
         entry('request', world.uid, index=index, issuer=eff,
               target_cached_uid=(uid_of(target()) if target.cached else None),
-              current_handle=handles.index(cur_handle),
+              current_handle=hindex(cur_handle),
               uid_counter=st['uid'])
         if issuer == 'coroutine':
             world.coro_dead = True
@@ -473,7 +476,7 @@ def run_case(case):
             st['frames'] += 1
             h = loop.current_world_handle
             entry('process_start', w.uid, dt=dt,
-                  handle=handles.index(h) if h in handles else None,
+                  handle=hindex(h),
                   handle_uid=(uid_of(h()) if h is not None and h.cached
                               else None),
                   is_current=loop.current_world is w)
@@ -511,7 +514,7 @@ def run_case(case):
             entry('on_add', world.uid)
 
         def on_world_load(self, handle, world):
-            entry('on_world_load', world.uid, handle=handles.index(handle))
+            entry('on_world_load', world.uid, handle=hindex(handle))
 
         def on_switch_in(self, from_world, to_world):
             entry('on_switch_in', self.world.uid, frm=uid_of(from_world),
@@ -569,6 +572,13 @@ def run_case(case):
                 desper.default_processors_transformer)
             self.transform_functions.append(build)
 
+        if case.get('equal_handles'):
+            def __eq__(self, other):
+                return isinstance(other, desper.WorldHandle)
+
+            def __hash__(self):
+                return 13
+
         def load(self):
             if not case.get('falsy_world'):
                 return super().load()
@@ -581,6 +591,10 @@ def run_case(case):
             return world
 
     handles = [LH(i) for i in range(case['handles'])]
+
+    def hindex(h):
+        # (by identity: handles may be value-like objects)
+        return next((i for i, x in enumerate(handles) if x is h), None)
     saved = desper.default_loop
     if not case.get('own_loop'):
         desper.default_loop = loop
